@@ -393,6 +393,9 @@ func stripVar(v string) string {
 
 // CheckNoPanics turns every recorded agent panic/Fatal into a violation of prop.
 func (r *Run) CheckNoPanics(prop string) {
+	for _, ra := range r.Sim.Runaways {
+		r.Violate(prop, "panic:runaway-task:"+ra.Site, "agent task %q (inc %d) executed more than %d statements without reaching a synchronisation point, sleep or I/O operation: a loop that does not end (last statement at %s); the task was parked and the run went on", ra.Task, ra.Inc, vsim.RunawayStatements, ra.Site)
+	}
 	for _, p := range r.Sim.Panics {
 		r.Violate(prop, PanicSig(p), "agent task %q (inc %d) died: %s\n%s", p.Task, p.Inc, p.Value, trimStack(p.Stack))
 	}
